@@ -84,7 +84,7 @@ def call_args(c: ast.Call, names: T.Sequence[str]) -> T.Dict[str, ast.AST]:
 
 
 def loop_rows(sym: S.Sym, loop: S.Loop) -> T.List[S.SRow]:
-    return sym.rows(body=loop.node.body, env0=loop.env, prepared=True)
+    return (loop.sym or sym).rows(body=loop.node.body, env0=loop.env, prepared=True)
 
 
 def is_logging(f: S.Fx) -> bool:
@@ -135,7 +135,7 @@ def _prefix_split_summary(ctx: RuleCtx, mod: T.Any) -> None:
     qn = 'OptionStore.prefix_split_options'
     fn = mod.func(qn)
     sym = S.Sym(fn)
-    items, _ = S.straight_line(sym, fn, qn)
+    items, _ = S.straight_line(sym, fn, qn, mod, 'OptionStore')
     loops = [x for k, x in items if k == 'loop']
     rets = [x for k, x in items if k == 'return']
     news = [x.node[0] for k, x in items if k == 'fx' and x.kind == 'new']
@@ -296,7 +296,7 @@ def r1(ctx: RuleCtx) -> None:
     qn = 'OptionStore.initialize_from_top_level_project_call'
     fn = mod.func(qn)
     sym = S.Sym(fn, pure={'is_for_build'})
-    items, _ = S.straight_line(sym, fn, qn)
+    items, _ = S.straight_line(sym, fn, qn, mod, 'OptionStore')
     for kind, x in items:
         if kind == 'block':
             raise Undecided(f'{qn}: compound statement at top level: {short(x[0])}')
@@ -459,7 +459,7 @@ def r2(ctx: RuleCtx) -> None:
     qn = 'OptionStore.initialize_from_subproject_call'
     fn = mod.func(qn)
     sym = S.Sym(fn, pure={'evolve', 'as_root', 'is_project_option', 'option_has_value'})
-    items, _ = S.straight_line(sym, fn, qn)
+    items, _ = S.straight_line(sym, fn, qn, mod, 'OptionStore')
     news = [x.node[0] for k, x in items if k == 'fx' and x.kind == 'new']
     if len(news) != 1:
         raise Undecided(f'{qn}: expected exactly one local accumulator mapping, found {news}')
@@ -467,6 +467,9 @@ def r2(ctx: RuleCtx) -> None:
     for kind, x in items:
         if kind == 'block':
             raise Undecided(f'{qn}: compound statement at top level: {short(x[0])}')
+    for kind, x in items:
+        if kind == 'fx' and x.kind in ('call', 'store', 'augstore', 'del') and not is_logging(x) and opts in names_of(x.node if isinstance(x.node, ast.AST) else ast.Tuple(elts=[n for n in x.node if isinstance(n, ast.AST)], ctx=ast.Load())):
+            raise Undecided(f'{qn}: the merged mapping is handed to / changed by {x.text} outside the loops this rule can see into')
     loops = [x for k, x in items if k == 'loop']
     is_sub, is_none = A('KEY.subproject == ARG1'), A('KEY.subproject is None')
     projopt = A('self.is_project_option(KEY.as_root())')
@@ -896,18 +899,53 @@ def r6(ctx: RuleCtx) -> None:
             raise Undecided(f'{qn}: a path does not test whether buildtype is on the command line: {r!r}')
         n += 1
         if r.conds[has]:
-            okk = False
-            if len(stores) == 1 and stores[0].kind == 'store' and isinstance(stores[0].node[1], ast.Dict):
-                d = stores[0].node[1]
-                okk = len(d.keys) == 2 and d.keys[0] is not None and norm(d.keys[0]) == BT and norm(d.values[0]) == f'{D}.pop({BT})' \
-                    and d.keys[1] is None and norm(d.values[1]) == D
-            ctx.require(okk, f'{qn}: buildtype is moved to the front of cmd_line_options', cm, qn, stores[0].src if stores else fn,
-                        f'with buildtype on the command line the mapping becomes {[f.text for f in stores]}; '
-                        f'reference: {{buildtype: popped value, **rest}} so that explicit debug/optimization are applied after the expansion', fn)
+            if len(stores) != 1 or stores[0].kind != 'store':
+                ctx.violation(cm, qn, stores[0].src if stores else 'cmd_line_options not rebuilt', f'with buildtype on the command line the mapping is rewritten {len(stores)} times '
+                              f'({[f.text for f in stores]}); reference: once, as {{buildtype: popped value, **rest}} so that explicit debug/optimization are applied after the expansion', fn)
+                continue
+            parts = _dict_build(r, stores[0])
+            if parts is None or not parts:
+                raise Undecided(f'{qn}: cannot read how the new mapping is built: {stores[0].text}')
+            keys = [norm(p[1]) if p[0] == 'item' else None for p in parts]
+            if keys[0] == BT:
+                rest_ok = [p for p in parts[1:]] == [p for p in parts[1:] if p[0] == 'spread' and norm(p[1]) == D] and len(parts) == 2
+                if not rest_ok or norm(parts[0][2]) not in (f'{D}.pop({BT})', f'{D}[{BT}]', f'{D}.get({BT})'):
+                    raise Undecided(f'{qn}: mapping built in an unknown way: {stores[0].text}')
+                ctx.ok(f'{qn}: buildtype is moved to the front of cmd_line_options')
+            else:
+                ctx.violation(cm, qn, stores[0].src, f'with buildtype on the command line the new mapping starts with {keys[0] or "the other options"}, not with buildtype '
+                              f'({stores[0].text}); reference: {{buildtype: popped value, **rest}} so that explicit debug/optimization are applied after the expansion', stores[0].src)
         else:
             ctx.require(not stores, f'{qn}: without buildtype the command line keeps its order', cm, qn, stores[0].src if stores else fn,
                         f'cmd_line_options is rewritten although buildtype is absent: {[f.text for f in stores]}', fn)
     ctx.floor('paths of parse_cmd_line_options', n, 2)
+
+
+def _dict_build(r: S.SRow, store: S.Fx) -> T.Optional[T.List[T.Tuple[T.Any, ...]]]:
+    """Insertion order of the mapping stored by `store`: [('item', key, value) | ('spread', mapping)].
+
+    Understands a dict display (with `**`) and a local dict display followed by `.update(mapping)` calls."""
+    def display(d: ast.Dict) -> T.List[T.Tuple[T.Any, ...]]:
+        return [('spread', v) if k is None else ('item', k, v) for k, v in zip(d.keys, d.values)]
+    v = store.node[1]
+    if isinstance(v, ast.Dict):
+        return display(v)
+    if isinstance(v, ast.Name):
+        out: T.Optional[T.List[T.Tuple[T.Any, ...]]] = None
+        for f in r.fx:
+            if f is store:
+                break
+            if f.kind == 'new' and f.node[0] == v.id:
+                out = display(f.node[1]) if isinstance(f.node[1], ast.Dict) else None
+            elif out is not None and v.id in names_of(f.node if isinstance(f.node, ast.AST) else ast.Tuple(elts=[n for n in f.node if isinstance(n, ast.AST)], ctx=ast.Load())):
+                if f.kind == 'call' and is_call(f.node, 'update') and norm(f.node.func.value) == v.id and len(f.node.args) == 1 and not f.node.keywords:
+                    out.append(('spread', f.node.args[0]))
+                elif f.kind == 'store' and isinstance(f.node[0], ast.Subscript) and norm(f.node[0].value) == v.id:
+                    out.append(('item', f.node[0].slice, f.node[1]))
+                elif f.kind != 'let':
+                    return None
+        return out
+    return None
 
 
 def _changed_semantics(ctx: RuleCtx, so: SetOption) -> None:
@@ -997,7 +1035,7 @@ def r7(ctx: RuleCtx) -> None:
     qn = 'OptionStore.hard_reset_from_prefix'
     fn = mod.func(qn)
     sym = S.Sym(fn)
-    items, _ = S.straight_line(sym, fn, qn)
+    items, _ = S.straight_line(sym, fn, qn, mod, 'OptionStore')
     kinds = [(k, x) for k, x in items if not (k == 'fx' and (x.kind == 'let' or is_logging(x)))]
     PFX = P('self.sanitize_prefix(ARG1)')
     O = 'self.options[KEY]'
@@ -1018,7 +1056,7 @@ def r7(ctx: RuleCtx) -> None:
     qn = 'OptionStore.reset_prefixed_options'
     fn = mod.func(qn)
     sym = S.Sym(fn)
-    items, _ = S.straight_line(sym, fn, qn)
+    items, _ = S.straight_line(sym, fn, qn, mod, 'OptionStore')
     kinds = [(k, x) for k, x in items if not (k == 'fx' and (x.kind == 'let' or is_logging(x)))]
     if [k for k, _ in kinds] != ['loop']:
         raise Undecided(f'{qn}: expected a single loop')
